@@ -264,5 +264,12 @@ LookKeysSubCache == {<< <<1>>, 1 >>, << <<1>>, 0 >>}
 SB_Empty == (0 :> <<>>) @@ (1 :> <<>>) @@ (2 :> <<>>)
 RegKeysEmpty == {<< <<0>>, 1, "" >>, << <<1>>, 1, "" >>, << <<0>>, 1, "n" >>}
 LookKeysEmpty == {<< <<2>>, 1 >>, << <<1>>, 1 >>, << <<2, 1>>, 1 >>}
+\* ---- a base that is reachable directly AND through another base (C06)
+RB_Overlap3 == << <<>>, <<1>>, <<2, 1>> >>
+RBaseChoicesOverlap == {<<2, <<>> >>, <<2, <<1>> >>, <<3, <<2, 1>> >>,
+                        <<3, <<1>> >>, <<3, <<2>> >>, <<3, <<1, 2>> >>}
+\* ---- sibling provided interfaces under subscriptions (C07)
+SubKeysSib == {<< <<1>>, p >> : p \in 1..3}
+LookKeysSib == {<< <<1>>, 1 >>, << <<1>>, 2 >>}
 None == {}
 =============================================================================
